@@ -10,6 +10,8 @@ choice; the explorer re-runs the task with every choice vector.
 """
 import itertools
 import math
+import os
+import time
 from fractions import Fraction as Fr
 
 from .core import AnalysisError
@@ -138,6 +140,8 @@ class Path:
         return v
 
 
+_STARTED = time.time()
+BUDGET_S = int(os.environ.get("VERIF_BUDGET_S", "420"))
 P = None  # current path (set by explore)
 MAX_FM = 3000
 
@@ -663,6 +667,9 @@ def explore(task, max_paths=20000):
         n += 1
         if n > max_paths:
             raise AnalysisError("engine B: path explosion (> %d paths)" % max_paths)
+        if time.time() - _STARTED > BUDGET_S:
+            raise AnalysisError("engine B: analysis budget of %d s exhausted after %d paths of one exploration "
+                                "(the code is outside what this abstract domain summarises)" % (BUDGET_S, n))
         try:
             res = ("ok", task())
         except PyRaise as r:
